@@ -46,7 +46,7 @@ DAMAGE = ['dup-line', 'drop-line', 'dup-ignore', 'unknown-tag', 'unknown-hash', 
           'short-line', 'odd-checksum-count', 'ignore-top', 'ignore-dot', 'aux-no-files', 'aux-abs', 'dup-timestamp', 'dup-timestamp', 'dist-slash',
           'manifest-self', 'manifest-cycle', 'manifest-cycle-3', 'manifest-back-ref', 'manifest-missing', 'dup-manifest-entry', 'blank-lines', 'long-line', 'unicode-space',
           'size-superscript', 'size-circled', 'size-arabic-indic', 'size-fullwidth', 'size-plus', 'size-underscore',
-          'size-float', 'size-hex', 'hash-value-odd', 'tag-lowercase', 'tag-unicode', 'path-only-escape']
+          'size-float', 'size-hex', 'hash-value-odd', 'tag-lowercase', 'tag-unicode', 'path-only-escape', 'esc-abs-path', 'esc-abs-path']
 
 
 def generate(rng, tier, idx):
@@ -215,6 +215,12 @@ def apply_damage(w, sc, d):
         lines.append('D\u0410TA cyrillic-tag 1')
     elif k == 'path-only-escape':
         repl_path('\\x2F')
+    elif k == 'esc-abs-path':
+        # an absolute path hidden behind an escape (the parser only refuses a literal leading slash)
+        repl_path(('\\x2Fabs/file', '\\x2Ftmp', '\\x2F\\x2Fdouble', '\\u002Fetc/passwd')[d['idx'] % 4])
+        if d['idx'] % 3 == 0:
+            lines.append('IGNORE \\x2Fabs')
+            lines.append('IGNORE \\x2Fabs')
     elif k == 'esc-overflow':
         repl_path('esc\\UFFFFFFFFx')
     elif k == 'esc-above-unicode':
